@@ -88,42 +88,33 @@ func c15(repo string, out *fg.Out) error {
 		}
 		return true
 	})
-	// UnmaskStringLiterals: ReplaceAll under `if mask.Identifier`, Replace(…, 1) otherwise
+	// UnmaskStringLiterals (942e7b2): ONE strings.NewReplacer(pairs...).Replace(sql) over all masks, the
+	// pairs appended in mask order as (Placeholder, Original); no per-mask Replace / ReplaceAll loop.
 	ud := mf.FuncDecl("", "UnmaskStringLiterals")
 	if ud == nil {
 		return fmt.Errorf("func UnmaskStringLiterals not found")
 	}
-	ra := fg.CallsNamed(ud, "ReplaceAll")
-	rp := fg.CallsNamed(ud, "Replace")
-	if len(ra) != 1 || len(rp) != 1 || len(rp[0].Args) != 4 {
-		return fmt.Errorf("UnmaskStringLiterals: expected one strings.ReplaceAll and one strings.Replace(…,n), got %d/%d", len(ra), len(rp))
+	nr := fg.CallsNamed(ud, "NewReplacer")
+	singlePass := len(nr) == 1 && len(fg.CallsNamed(ud, "ReplaceAll")) == 0 && len(fg.CallsNamed(ud, "Replace")) == 1
+	if singlePass {
+		singlePass = nr[0].Ellipsis.IsValid() && len(nr[0].Args) == 1 && mf.Text(nr[0].Args[0]) == "pairs"
 	}
-	cnt, ok := rp[0].Args[3].(*ast.BasicLit)
-	if !ok {
-		return fmt.Errorf("UnmaskStringLiterals: Replace count is not a literal")
-	}
-	// restoration order: the masks must be walked first-to-last (`for _, mask := range masks`) and the
-	// Replace / ReplaceAll calls must sit in that loop.
-	orderForward := false
+	pairsInOrder := false
 	ast.Inspect(ud, func(n ast.Node) bool {
 		if rs, ok := n.(*ast.RangeStmt); ok && mf.Text(rs.X) == "masks" {
-			if len(fg.CallsNamed(rs.Body, "ReplaceAll")) == 1 && len(fg.CallsNamed(rs.Body, "Replace")) == 1 {
-				orderForward = true
+			for _, c := range fg.CallsNamed(rs.Body, "append") {
+				if len(c.Args) == 3 && mf.Text(c.Args[0]) == "pairs" && mf.Text(c.Args[1]) == "mask.Placeholder" && mf.Text(c.Args[2]) == "mask.Original" {
+					pairsInOrder = true
+				}
 			}
 		}
 		return true
 	})
-	identGuard := false
-	ast.Inspect(ud, func(n ast.Node) bool {
-		if is, ok := n.(*ast.IfStmt); ok && strings.Contains(mf.Text(is.Cond), "Identifier") {
-			if len(fg.CallsNamed(is.Body, "ReplaceAll")) == 1 {
-				identGuard = true
-			}
+	var replArg string
+	for _, c := range fg.CallsNamed(ud, "Replace") {
+		if len(c.Args) == 1 {
+			replArg = mf.Text(c.Args[0])
 		}
-		return true
-	})
-	if !identGuard {
-		return fmt.Errorf("UnmaskStringLiterals: ReplaceAll is not under `if mask.Identifier`")
 	}
 	// call sites
 	qf, err := fg.ParseFile(repo, "internal/api/query.go")
@@ -184,9 +175,7 @@ func c15(repo string, out *fg.Out) error {
 		fmt.Fprintf(w, "  (%s, %s)%s\n", byteList(p.Prefix), byteList(p.Suffix), sep)
 	}
 	fmt.Fprintln(w, "]")
-	fmt.Fprintf(w, "/-- count argument of strings.Replace for string-class masks in UnmaskStringLiterals -/\ndef unmaskStrCount : Int := %s\n", cnt.Value)
-	fmt.Fprintf(w, "/-- UnmaskStringLiterals walks the masks first-to-last (`for _, mask := range masks` around both replace calls) -/\ndef unmaskFirstToLast : Bool := %v\n", orderForward)
-	fmt.Fprintln(w, "/-- identifier-class masks are restored with strings.ReplaceAll (guarded by `mask.Identifier`) -/\ndef unmaskIdentAll : Bool := true")
+	fmt.Fprintf(w, "/-- UnmaskStringLiterals is one `strings.NewReplacer(pairs...).Replace(sql)`; `pairs` is built by `for _, mask := range masks { pairs = append(pairs, mask.Placeholder, mask.Original) }`; no strings.Replace / ReplaceAll loop -/\ndef unmaskSinglePass : Bool := %v\n", singlePass && pairsInOrder && replArg == "sql")
 	fmt.Fprintf(w, "/-- every `identPlaceholders[k]` in MaskStringLiterals has k = `original` = `sql[start:i]` (index expressions found: %s) -/\ndef identDedupKeyIsTokenText : Bool := %v\n", strings.Join(keyExprs, ", "), keyIsOriginal && origIsSlice)
 	fmt.Fprintln(w, "/-- (function of internal/api/query.go that calls stripSQLComments, MaskStringLiterals is called before every such call) -/")
 	fmt.Fprintln(w, "def callSites : List (String × Bool) := [")
